@@ -112,7 +112,11 @@ func handleDemonAgent(Teamserver agent.TeamServer, Header agent.Header, External
 		}
 
 		/* if there is no job then just reply with a COMMAND_NOJOB */
-		if asked_for_jobs == false || len(Agent.JobQueue) == 0 {
+		Agent.JobMtx.Lock()
+		var QueuedJobs = len(Agent.JobQueue)
+		Agent.JobMtx.Unlock()
+
+		if asked_for_jobs == false || QueuedJobs == 0 {
 			var NoJob = []agent.Job{{
 				Command: agent.COMMAND_NOJOB,
 				Data:    []interface{}{},
